@@ -33,6 +33,12 @@ def leaves_alpha():
     return [("f", 0.7), ("a", onp.array([0.3, -1.1])), ("m", onp.array([[0.2, 0.5]]))]
 
 
+def layout_values():
+    """Leaves whose memory layout is not C-contiguous (flatten/unflatten must not depend on it)."""
+    M = onp.arange(6.0).reshape(2, 3) * 0.25 + 0.1
+    return [(onp.asfortranarray(M), 1.5), [M.T, onp.array([0.5])], {"w": onp.asfortranarray(M), "b": M[:, ::2]}, (M[::-1], M.T.copy())]
+
+
 def values(quick):
     L = leaves_alpha()
     lv = [v for _, v in L]
@@ -61,7 +67,7 @@ def values(quick):
     return out
 
 
-SEQ_STYLES = ["index", "negindex", "iter", "unpack", "slice-all", "slice-rev", "slice-split", "add", "radd", "add2", "queries"]
+SEQ_STYLES = ["index", "negindex", "iter", "unpack", "slice-all", "slice-rev", "slice-split", "add", "radd", "add2", "add0", "radd0", "queries"]
 DICT_STYLES = ["getitem", "keys", "values", "items", "get", "iter", "queries"]
 
 
@@ -116,6 +122,13 @@ def read(c, styles, depth, isbox_container):
         elif st == "radd":
             s = type(_val(c))((7.5, 8.5)) + c
             elems = [(i, s[i + 2]) for i in range(n)]
+        elif st == "add0":          # an EMPTY right operand
+            s = c + type(_val(c))(())
+            assert len(s) == n
+            elems = [(i, s[i]) for i in range(n)]
+        elif st == "radd0":         # an EMPTY left operand
+            s = type(_val(c))(()) + c
+            elems = [(i, s[i]) for i in range(n)]
         elif st == "add2":
             s = (c + type(_val(c))((1.5, 2.5, 3.5)))[: n + 1]
             elems = [(i, s[i]) for i in range(n)]
@@ -301,18 +314,20 @@ def construct_factory(quick, seed):
 def flatten_factory(quick, seed):
     L = lib()
     ag, np, flatten = L["ag"], L["np"], L["flatten"]
-    vals = [v for v in values(quick) if True]
+    vals = layout_values() + [v for v in values(quick) if True]
 
     def h(ch):
         c = ch.choose("value", vals)
-        check = ch.choose("check", ["roundtrip", "inverse-on-vectors", "commutes-with-grad", "linear"])
+        check = ch.choose("check", ["roundtrip", "inverse-on-vectors", "commutes-with-grad", "linear", "layout"])
         obs = {}
         with warnings.catch_warnings():
             warnings.simplefilter("ignore")
             try:
                 flat, unflatten = flatten(c)
                 n = flat.size
-                if check == "roundtrip":
+                if check == "layout":      # the flat vector is the C-order concatenation of the leaves (dict keys sorted), whatever their memory layout
+                    obs["ok"] = same(flat, _flat_ref(c), 0)
+                elif check == "roundtrip":
                     obs["ok"] = same(unflatten(flat), _as_float(c), 0) and flat.ndim == 1
                 elif check == "inverse-on-vectors":
                     v = onp.arange(n) * 0.5 - 1.0
@@ -350,6 +365,16 @@ def flatten_factory(quick, seed):
         return res
 
     return h, judge
+
+
+def _flat_ref(c):
+    if isinstance(c, dict):
+        parts = [_flat_ref(c[k]) for k in sorted(c)]
+    elif isinstance(c, (tuple, list)):
+        parts = [_flat_ref(v) for v in c]
+    else:
+        return onp.asarray(c, dtype=float).ravel()
+    return onp.concatenate(parts) if parts else onp.zeros(0)
 
 
 def _as_float(c):
